@@ -661,6 +661,17 @@ func (c *specCl) classify(rq Req, exp Expect, ob Observed) string {
 	if ob.Verdict == "redirect" && exp.Kind == "servers" && exp.Via == "default backend" {
 		return "default-backend-ssl-redirect"
 	}
+	if exp.Decl != nil {
+		if svc, sp := c.namedPort(*exp.Decl); sp != nil {
+			for i := range svc.Spec.Ports {
+				q := &svc.Spec.Ports[i]
+				if q.Name != sp.Name && q.TargetPort.String() == sp.TargetPort.String() &&
+					strings.Join(c.servers(svc, q), ",") != strings.Join(c.servers(svc, sp), ",") {
+					return "shared-targetport-backend"
+				}
+			}
+		}
+	}
 	// any declaration whose legacy port lookup differs from the port the rule names
 	for _, ing := range c.sorted {
 		check := func(ns string, b *networking.IngressBackend) bool {
@@ -686,17 +697,6 @@ func (c *specCl) classify(rq Req, exp Expect, ob Observed) string {
 			for i := range r.HTTP.Paths {
 				if check(ing.Namespace, &r.HTTP.Paths[i].Backend) {
 					return "service-port-targetport-precedence"
-				}
-			}
-		}
-	}
-	if exp.Decl != nil {
-		if svc, sp := c.namedPort(*exp.Decl); sp != nil {
-			for i := range svc.Spec.Ports {
-				q := &svc.Spec.Ports[i]
-				if q.Name != sp.Name && q.TargetPort.String() == sp.TargetPort.String() &&
-					strings.Join(c.servers(svc, q), ",") != strings.Join(c.servers(svc, sp), ",") {
-					return "shared-targetport-backend"
 				}
 			}
 		}
